@@ -104,6 +104,23 @@ CLAIMS["C12"] = {
     "design": "DESIGN.md §5 C12",
 }
 
+CLAIMS["C14"] = {
+    "text": "sinktools is compiled in place by Kani (overlay, harness child modules appended). Every adaptor method gets a contract with "
+            "symbolic own state against havoc downstream sinks that answer Ready(Ok)/Pending/Ready(Err) arbitrarily on every poll, may fail "
+            "start_send, and assert the Sink protocol on themselves (start_send only after their last poll_ready answered Ready(Ok); nothing "
+            "after an error). map/filter/filter_map/inspect/unzip/for_each/try_for_each/demux_var(arity 3): loop-free, complete for Item=u8: "
+            "exactly the right image reaches exactly the addressed sink once, polls are forwarded once to every sink (also when an earlier one "
+            "is pending), errors propagate. flat_map/flatten/send_iter/send_stream: bounded (<= 3 buffered items): buffered items are "
+            "delivered in order, each after a successful poll_ready, kept on Pending, flush/close only after everything was delivered. "
+            "LazySink / LazySource: one call from each state of the Uninit -> Thunkulating -> Done machine with a havoc init future: the init "
+            "closure runs at most once, the first item is delivered exactly once before any later item, polls on Uninit are no-ops, nothing is "
+            "lost while initialisation is pending.",
+    "note": "Trusted: Kani+CBMC; demux_map / demux_map_lazy own a std HashMap and LazySinkSource uses Rc<RefCell>/Arc<Mutex<Vec<Waker>>>: NOT "
+            "covered (outside CBMC's practical reach, see DESIGN §3.3); the step-to-trace induction is argued, not machine-checked.",
+    "technique": "contract-based verification: Kani per-method contracts on the real adaptors with symbolic own state and protocol-asserting havoc sinks",
+    "design": "DESIGN.md §5 C14",
+}
+
 NOT_APPLICABLE = {
     "C08": "GHT nodes own std HashMap / hashbrown HashTable at every level; variadic type recursion is outside Verus' subset and CBMC does not get through hashbrown probing (spiked): no contract on these functions can be discharged here.",
     "C18": "Quantifies over programs the compiler accepts; partition_graph works on DfirGraph (slotmaps of syn AST nodes): no contract over that state is within Verus' subset and Kani cannot build a symbolic DfirGraph.",
